@@ -180,7 +180,7 @@ func init() {
 // happen to collide. 64 sites = 2016 pairs (thorough: 192 sites = 18336 pairs); which pairs collide
 // depends on the implementation and the build, so this family covers "every pair of THESE sites" and
 // nothing more: a cache whose hash spreads regularly spaced program counters well (seeded change C11-12,
-// Fibonacci hashing into 4096 slots) has no colliding pair among them, and its defect is NOT found.
+// Fibonacci hashing into 4096 slots) has no colliding pair among them - see c11/fast-lookup-cold-pairs below.
 // ---------------------------------------------------------------------------------------------
 
 func pairOf(k, n int) (int, int) {
@@ -236,6 +236,59 @@ func init() {
 					got, exp := sortedCopy(lrecStore), sortedCopy(want)
 					if strings.Join(got, "\n") != strings.Join(exp, "\n") {
 						return "wrong", []zzvrt.Violation{{Clause: "wrong-location-under-concurrency", Key: key, Detail: fmt.Sprintf("records %v, the calling statements are %v", got, exp)}}
+					}
+					return "ok", nil
+				},
+			}
+		}})
+}
+
+// ---------------------------------------------------------------------------------------------
+// C11 - every pair of 384 (thorough 768) call sites of the exported fast lookup itself, cold cache, two
+// goroutines, P <= 2 with post-publication points. The sites have irregular code sizes in front of the
+// call (scripts/gen_fc_sites.py), so their return addresses are scattered: whatever table a lookup keeps and
+// however it hashes into it, some of these 73 536 (294 528) pairs share a slot. Each lookup must report ITS
+// statement (checked against runtime.Caller on the next line).
+// ---------------------------------------------------------------------------------------------
+
+func init() {
+	nSites := func(tier string) int {
+		if tier == "thorough" {
+			return len(fcSites)
+		}
+		return 384
+	}
+	registerFamily(Fam{Prop: "C11", Name: "c11/fast-lookup-cold-pairs", Tiers: "qt",
+		Count: func(tier string) int { n := nSites(tier); return n * (n - 1) / 2 },
+		Make: func(tier string, k int) *zzvrt.Scenario {
+			i, j := pairOf(k, nSites(tier))
+			var got [2][4]any
+			return &zzvrt.Scenario{
+				Desc:   fmt.Sprintf("sites %d and %d", i, j),
+				Before: func() { resetAll(); got = [2][4]any{} },
+				Opts:   zzvrt.RunOpts{Bounds: zzvrt.Bounds{Preempt: 2, Horizon: 2000}},
+				Body: func() {
+					done := 0
+					for t, s := range []int{i, j} {
+						t, s := t, s
+						zzvrt.GoNamed("lookup", func() {
+							f, l, wf, wl := fcSites[s]()
+							got[t] = [4]any{f, l, wf, wl}
+							done++
+						})
+					}
+					zzvrt.WaitUntil(func() bool { return done == 2 })
+				},
+				Check: func(x *zzvrt.Exec) (string, []zzvrt.Violation) {
+					key := fmt.Sprintf("sites %d and %d", i, j)
+					if x.Outcome != "" {
+						return x.Outcome, []zzvrt.Violation{{Clause: "no-" + strings.SplitN(x.Outcome, ":", 2)[0], Key: key, Detail: x.Outcome}}
+					}
+					for t := range got {
+						if got[t][0] != got[t][2] || got[t][1] != got[t][3] {
+							return "wrong", []zzvrt.Violation{{Clause: "wrong-location-under-concurrency", Key: key,
+								Detail: fmt.Sprintf("FastCaller reported %v:%v, the calling statement is %v:%v (two first lookups from different statements at the same time)", got[t][0], got[t][1], got[t][2], got[t][3])}}
+						}
 					}
 					return "ok", nil
 				},
